@@ -1,6 +1,7 @@
 package mc
 
 import (
+	"strings"
 	"fmt"
 	"os"
 	"runtime/debug"
@@ -176,8 +177,16 @@ func (e *Explorer) execute(prefix []int, tracing bool, recorded []string) (c *Ct
 		if r := recover(); r != nil {
 			if he, ok := r.(HarnessError); ok {
 				herr = HarnessError{fmt.Sprintf("%s [scenario %s prefix %v]", he.Msg, e.scen.Name, prefix)}
+			} else if st := string(debug.Stack()); libraryFrameAbovePanic(st) {
+				// the panic was raised inside the library under test (on the goroutine that called it): that is a verdict about the
+				// library, never a harness error - whatever the property, a call that does not return is not the specified behaviour
+				first := fmt.Sprint(r)
+				if i := strings.IndexByte(first, '\n'); i >= 0 {
+					first = first[:i]
+				}
+				c.Fails = append(c.Fails, Fail{Sig: e.Property + " the library panics on the calling goroutine: " + stripDigitsMC(first), Msg: fmt.Sprintf("%v\n%s", r, st)})
 			} else {
-				herr = HarnessError{fmt.Sprintf("body panicked in scenario %s choices %v: %v\n%s", e.scen.Name, c.Choices, r, debug.Stack())}
+				herr = HarnessError{fmt.Sprintf("body panicked in scenario %s choices %v: %v\n%s", e.scen.Name, c.Choices, r, st)}
 			}
 		}
 	}()
@@ -186,6 +195,41 @@ func (e *Explorer) execute(prefix []int, tracing bool, recorded []string) (c *Ct
 		return c, HarnessError{fmt.Sprintf("replay divergence in scenario %s: prefix has %d choices, execution met only %d points", e.scen.Name, len(prefix), len(c.Points))}
 	}
 	return c, nil
+}
+
+// libraryFrameAbovePanic reports whether the innermost non-runtime frame of a panic's stack belongs to the library under test (or one
+// of its dependencies called from it), i.e. the first frames after runtime.gopanic are not the harness's own.
+func libraryFrameAbovePanic(stack string) bool {
+	lines := strings.Split(stack, "\n")
+	seenPanic := false
+	for _, l := range lines {
+		if strings.HasPrefix(l, "panic(") || strings.HasPrefix(l, "runtime.gopanic") || strings.HasPrefix(l, "runtime.panic") || strings.HasPrefix(l, "runtime.goPanic") {
+			seenPanic = true
+			continue
+		}
+		if !seenPanic || strings.HasPrefix(l, "\t") || strings.HasPrefix(l, "runtime.") || l == "" {
+			continue
+		}
+		// first function frame after the panic machinery
+		if strings.HasPrefix(l, "verif/") {
+			return false // the harness itself panicked
+		}
+		// walk on until a harness frame or a library frame decides
+		if strings.Contains(l, "github.com/notaryproject/notation-core-go/") {
+			return true
+		}
+	}
+	return false
+}
+
+func stripDigitsMC(s string) string {
+	b := []byte(s)
+	for i, ch := range b {
+		if ch >= '0' && ch <= '9' {
+			b[i] = '#'
+		}
+	}
+	return string(b)
 }
 
 func pointStrings(c *Ctx) []string {
